@@ -29,7 +29,7 @@ func VerifC11_CallStep() {
 	calls := 0
 	var lastArg map[string]any
 	outID := nondetStringFrom("outID", "ok", "err", "undeclared")
-	outKind := nondetChoice("outKind", 3) // 0 conforming shape with symbolic value, 1 wrong type, 2 missing field
+	outKind := nondetChoice("outKind", 4) // 0 conforming shape with symbolic value, 1 wrong type, 2 missing field, 3 nil data
 	ov := nondetInt64("ov")
 	step := NewCallableStep[map[string]any](
 		"s",
@@ -53,6 +53,8 @@ func VerifC11_CallStep() {
 				return outID, map[string]any{"o": "notanumber"}
 			case 2:
 				return outID, map[string]any{}
+			case 3:
+				return outID, nil
 			}
 			return outID, map[string]any{"o": ov}
 		},
